@@ -18,7 +18,47 @@ pub fn lanes() -> Vec<Lane> {
         Lane { name: "document", count: |c| if c.thorough() { 800_000 } else { 80_000 }, run: doc_lane },
         Lane { name: "entry", count: |c| if c.thorough() { 200_000 } else { 15_000 }, run: entry_lane },
         Lane { name: "control", count: |c| if c.thorough() { 400_000 } else { 40_000 }, run: control_lane },
+        Lane { name: "many-fields", count: |c| if c.thorough() { 20_000 } else { 2_000 }, run: many_fields_lane },
     ]
+}
+
+/// Long paragraphs and documents with many duplicate names / equal keys: a comparator leaves ties in the order
+/// they were written (otherwise the first field of a name - what `get` returns - would change with reformatting).
+fn many_fields_lane(ctx: &mut Ctx, idx: u64) {
+    let mut r = ctx.rng();
+    let names = ["Tag", "Files", "X-A", "Depends", "b", "Zz"];
+    let n = r.range(33, 70);
+    let fields: Vec<(String, String)> = (0..n).map(|i| (r.pick_s(&names).to_string(), format!("v{}", i))).collect();
+    let kind = 1 + (idx % 2) as u8 * 2; // 1 = by key, 3 = rank(len, key): both ignore the values
+    let s = Settings { indent: Indentation::Spaces(1), iel: false, mll: None, sort_entries: kind, sort_paras: 0, formatter: 0 };
+    let mut want = fields.clone();
+    want.sort_by(|a, b| field_cmp(kind, a, b)); // stable
+    let text: String = fields.iter().map(|(k, v)| format!("{}: {}\n", k, v)).collect();
+    let res = guard(text.len() * 4 + 1024, || {
+        let doc = Deb822::from_str(&text).map_err(|e| e.to_string())?;
+        let p = doc.paragraphs().next().ok_or("no paragraph")?;
+        let out = apply_para(&p, &s);
+        Ok::<_, String>((out.items().collect::<Vec<_>>(), out.to_string()))
+    });
+    match res {
+        Err(f) => fail(ctx, &f.class(), "paragraph", &s, &text, "", f.json()),
+        Ok(Err(e)) => fail(ctx, "input-rejected", "paragraph", &s, &text, "", json!({"error": e})),
+        Ok(Ok((got, out))) => {
+            if got != want {
+                let mut a = got.clone();
+                let mut b = want.clone();
+                a.sort();
+                b.sort();
+                let kind = if a != b { "content-changed" } else { "ties-reordered" };
+                fail(ctx, kind, "paragraph", &s, &text, &out, json!({"fields": n, "first_difference": got.iter().zip(want.iter()).position(|(x, y)| x != y)}));
+                return;
+            }
+            ctx.count("held");
+            ctx.max("fields", n as f64);
+            ctx.nontrivial(text.as_bytes());
+            ctx.sample(|| json!({"fields": n, "comparator": s.json()["sort_entries"]}));
+        }
+    }
 }
 
 #[derive(Clone, Copy, Debug)]
